@@ -135,6 +135,11 @@ class Prop:
                 return out
             if n == nid:
                 node_term = mine[0] if mine else None
+                if node_term is not None and node_term[2] == "D" and node_term[1] == ft:
+                    # the consumer unsubscribed in the very instant of the fault, before an error that the operator hands to
+                    # the scheduler (using / defer factories -> throw) could be delivered: nothing left to deliver to
+                    out.probes["consumer_unsubscribed_at_fault_instant"] += 1
+                    return out
                 if node_term is None or node_term[2] != "E" or not isinstance(node_term[3], vt.InjectedFault):
                     out.bad("not-delivered", "%s: the operator's output saw %r after the fault, expected on_error(InjectedFault)" % (
                         desc, "".join(e[2] for e in tap if e[4] == live[-1] and e[0] > fseq)))
